@@ -4,6 +4,8 @@ import (
 	"bytes"
 	"context"
 	"fmt"
+	"github.com/bufbuild/protocompile/linker"
+	"google.golang.org/protobuf/reflect/protoreflect"
 	"runtime"
 	"sort"
 	"strings"
@@ -54,7 +56,13 @@ type c05Result struct {
 
 func c05Compile(files map[string]string, run c05Run) c05Result {
 	comp := protocompile.Compiler{Resolver: perturbingResolver(files, run), MaxParallelism: run.Par, SourceInfoMode: protocompile.SourceInfoStandard}
-	res, err := comp.Compile(context.Background(), run.Order...)
+	var res linker.Files
+	var err error
+	// "whether compilation succeeds is the same for every setting": a call that never returns at some setting is
+	// the extreme case of a different outcome
+	if fin, dump := withWatchdog(30*time.Second, func() { res, err = comp.Compile(context.Background(), run.Order...) }); !fin {
+		return c05Result{bytes: map[string][]byte{"!hung": []byte(firstLinesOf(dump, 50))}}
+	}
 	out := c05Result{ok: err == nil, bytes: map[string][]byte{}}
 	if err == nil {
 		for p, f := range allFiles(res) {
@@ -77,6 +85,9 @@ func c05Check(c c05Case, r *ev.Rec) error {
 	if msg, bad := ref.bytes["!order"]; bad {
 		return fmt.Errorf("reference run: %s", msg)
 	}
+	if dump, hung := ref.bytes["!hung"]; hung {
+		return fmt.Errorf("the reference run (parallelism 1, sorted order) did not return within 30 s\n%s\n%s", dump, showFiles(c.Files))
+	}
 	if c.Mutation == "" && !ref.ok {
 		return fmt.Errorf("valid workspace rejected in the reference run\n%s", showFiles(c.Files))
 	}
@@ -86,6 +97,9 @@ func c05Check(c c05Case, r *ev.Rec) error {
 			got := c05Compile(c.Files, run)
 			if msg, bad := got.bytes["!order"]; bad {
 				return fmt.Errorf("run %d: %s", i, msg)
+			}
+			if dump, hung := got.bytes["!hung"]; hung {
+				return fmt.Errorf("run %d (parallelism %d, order %v, yields %v, repetition %d) did not return within 30 s; the reference run had success=%v\n%s\n%s", i, run.Par, run.Order, run.Yields, rep, ref.ok, dump, showFiles(c.Files))
 			}
 			if got.ok != ref.ok {
 				return fmt.Errorf("run %d (parallelism %d, order %v, yields %v, repetition %d): success=%v, but the reference run (parallelism 1, sorted order) had success=%v (injected defect: %q)\n%s", i, run.Par, run.Order, run.Yields, rep, got.ok, ref.ok, c.Mutation, showFiles(c.Files))
@@ -133,7 +147,7 @@ func genRuns(t *rapid.T, names []string, n int) []c05Run {
 }
 
 func TestC05_Schedules(t *testing.T) {
-	ev.Run(t, ev.Spec[c05Case]{ID: "C05", Name: "Schedules", Quick: 150, Thorough: 6000,
+	ev.Run(t, ev.Spec[c05Case]{ID: "C05", Name: "Schedules", Quick: 150, Thorough: 4000,
 		Rule: "generated workspaces of 2-6 files (chains, diamonds, fan-out, public re-exports), 70% valid and 30% with an injected defect, compiled once as reference (parallelism 1, sorted names, no perturbation) and then under 4 generated configurations x 2 repetitions: MaxParallelism in {1,2,3,4,8,16}, a permutation of the requested names, and a resolver that yields the processor a generated number of times (and sometimes sleeps) per file to perturb the goroutine interleaving; race detector on; oracle: success/failure and the deterministic encoding (with source info) of every produced descriptor are identical to the reference, and results come back in the requested order; non-trivial = >=3 files, parallelism >=2 and a non-sorted order; distinct by case",
 		Gen: func(t *rapid.T) c05Case {
 			ws := gen.GenWorkspace(t, gen.Config{MinFiles: 2, MaxFiles: 6, ImportPct: 65})
@@ -151,7 +165,7 @@ func TestC05_Schedules(t *testing.T) {
 // TestC05_ImplicitDescriptor: the resolver supplies its own descriptor.proto, which every file depends on implicitly;
 // when that file imports workspace files the dependency graph has a cycle that only exists through the implicit edge.
 func TestC05_ImplicitDescriptor(t *testing.T) {
-	ev.Run(t, ev.Spec[c05Case]{ID: "C05", Name: "ImplicitDescriptor", Quick: 60, Thorough: 2500,
+	ev.Run(t, ev.Spec[c05Case]{ID: "C05", Name: "ImplicitDescriptor", Quick: 60, Thorough: 1500,
 		Rule: "generated workspaces of 1-4 files plus a resolver-supplied google/protobuf/descriptor.proto that imports 0-2 of them (with imports the graph is cyclic through the implicit dependency of every file on descriptor.proto); descriptor.proto and the workspace files are all requested; same configurations and oracle as Schedules (verdict and bytes equal to the reference run for every parallelism, request order and resolver perturbation); non-trivial as Schedules",
 		Gen: func(t *rapid.T) c05Case {
 			ws := gen.GenWorkspace(t, gen.Config{MinFiles: 1, MaxFiles: 4, ImportPct: 50})
@@ -187,7 +201,7 @@ func TestC05_ImplicitDescriptor(t *testing.T) {
 // TestC05_CrossFileCollision: unrelated files of one package that define the same name; whichever is linked second
 // must report the collision, whatever the schedule.
 func TestC05_CrossFileCollision(t *testing.T) {
-	ev.Run(t, ev.Spec[c05Case]{ID: "C05", Name: "CrossFileCollision", Quick: 24, Thorough: 600,
+	ev.Run(t, ev.Spec[c05Case]{ID: "C05", Name: "CrossFileCollision", Quick: 24, Thorough: 240,
 		Rule: "2-4 files of one package that do not import each other, each with 200-1500 messages (so that linking them overlaps in time) and, in two of them, one message of the same name; compiled at parallelism 2-16 in generated request orders, 4 configurations x 2 repetitions; oracle as Schedules: the reference run (parallelism 1) fails and so must every other run; non-trivial = always (parallelism >= 2 by construction)",
 		Gen: func(t *rapid.T) c05Case {
 			k := 2 + gen.Uniform(t, 3, "nfiles")
@@ -215,4 +229,87 @@ func TestC05_CrossFileCollision(t *testing.T) {
 			return c
 		},
 		Check: c05Check})
+}
+
+// TestC05_PrebuiltCollision: two unrelated source files whose imports are supplied as already built descriptors
+// (SearchResult.Desc) of one package that declare the same name.
+type c05Prebuilt struct {
+	PerFile  int // messages per prebuilt file
+	SharedAt int // position (percent) of the common message in each
+	Pars     []int
+	Swap     []bool // per run: request b.proto before a.proto
+}
+
+func TestC05_PrebuiltCollision(t *testing.T) {
+	ev.Run(t, ev.Spec[c05Prebuilt]{ID: "C05", Name: "PrebuiltCollision", Quick: 16, Thorough: 160,
+		Rule: "two descriptor-backed files d0.proto and d1.proto (built with protodesc, 200-3000 messages each, same package, one message name in common) are handed out by the resolver as SearchResult.Desc; a.proto imports d0, b.proto imports d1, both are requested, in either order, at parallelism 1 (reference) and 2-16, 4 configurations x 2 repetitions; oracle as Schedules: the reference run fails with the collision and so must every other run, and every call returns (watchdog 30 s); non-trivial = always",
+		Gen: func(t *rapid.T) c05Prebuilt {
+			c := c05Prebuilt{PerFile: gen.Pick(t, []int{200, 1000, 3000}, "perfile"), SharedAt: gen.Pick(t, []int{0, 50, 100}, "at")}
+			for i := 0; i < 4; i++ {
+				c.Pars = append(c.Pars, gen.Pick(t, []int{2, 2, 3, 4, 8, 16}, "par"))
+				c.Swap = append(c.Swap, gen.Pct(t, 50, "swap"))
+			}
+			return c
+		},
+		Check: func(c c05Prebuilt, r *ev.Rec) error {
+			dc := c16DescCase{Files: 2, PerFile: c.PerFile, Pkgs: []int{0, 0}, Shared: []int{0, 1}, SharedAt: c.SharedAt}
+			var descs [2]protoreflect.FileDescriptor
+			for k := range descs {
+				d, _, err := c16DescFile(dc, k)
+				if err != nil {
+					return fmt.Errorf("generator: %v", err)
+				}
+				descs[k] = d
+			}
+			src := map[string]string{
+				"a.proto": "syntax = \"proto3\";\npackage u;\nimport \"d0.proto\";\nmessage A { p.F0_M0 x = 1; }\n",
+				"b.proto": "syntax = \"proto3\";\npackage v;\nimport \"d1.proto\";\nmessage B { p.F1_M0 x = 1; }\n",
+			}
+			compile := func(par int, order []string) (ok, hung bool, err error) {
+				res := protocompile.ResolverFunc(func(path string) (protocompile.SearchResult, error) {
+					switch path {
+					case "d0.proto":
+						return protocompile.SearchResult{Desc: descs[0]}, nil
+					case "d1.proto":
+						return protocompile.SearchResult{Desc: descs[1]}, nil
+					}
+					if s, found := src[path]; found {
+						return protocompile.SearchResult{Source: strings.NewReader(s)}, nil
+					}
+					return protocompile.SearchResult{}, fmt.Errorf("not found: %s", path)
+				})
+				comp := protocompile.Compiler{Resolver: res, MaxParallelism: par}
+				fin, _ := withWatchdog(30*time.Second, func() { _, err = comp.Compile(context.Background(), order...) })
+				return err == nil, !fin, err
+			}
+			refOK, hung, refErr := compile(1, []string{"a.proto", "b.proto"})
+			if hung {
+				return fmt.Errorf("the reference run did not return")
+			}
+			if refOK {
+				return fmt.Errorf("the reference run (parallelism 1) accepted two imports of one package that both declare p.Shared")
+			}
+			for i, par := range c.Pars {
+				order := []string{"a.proto", "b.proto"}
+				if c.Swap[i] {
+					order = []string{"b.proto", "a.proto"}
+				}
+				for rep := 0; rep < 2; rep++ {
+					ok, hung, err := compile(par, order)
+					if hung {
+						return fmt.Errorf("run %d (parallelism %d, order %v) did not return within 30 s", i, par, order)
+					}
+					if ok {
+						return fmt.Errorf("run %d (parallelism %d, order %v, repetition %d) succeeded; the reference run at parallelism 1 failed with: %v (prebuilt files of %d messages, common name at %d%%)", i, par, order, rep, refErr, c.PerFile, c.SharedAt)
+					}
+					_ = err
+				}
+			}
+			r.Case(ev.JSONFP(c), true, fmt.Sprintf("perfile=%d", c.PerFile))
+			r.LabelN("compilations", 1+2*len(c.Pars))
+			if r.WantSample() {
+				r.Sample(c)
+			}
+			return nil
+		}})
 }
